@@ -145,6 +145,7 @@ def c04(ctx):
     walk.r_loop_test(ctx)
     walk.r_msg(ctx)
     ctx.run.notes.append('termination on out-degree-1 chains depends on the generated graph (C03) and is not decided')
+    graph.r_shift(ctx)           # the cascade that guarantees 'no missing out-degree' enumerates predecessors
 
 
 def c08(ctx):
@@ -157,10 +158,14 @@ def c08(ctx):
     repair.r_sites(ctx)
     repair.r_recomb(ctx)
     repair.r_fallback(ctx)      # a detected error is never dropped by an early hand-back of the input
+    misc.r_vtform(ctx)          # 'also when the check of w is supplied': the check repair recomputes is the documented one
+    misc2.r_conv(ctx)           # ... rendered at exactly its length (set_vt -> number_to_dna)
 
 
 def c09(ctx):
     repair.r_recomb(ctx)
+    misc.r_vtform(ctx)          # 'reproduces that check': the check repair recomputes is the documented one
+    misc2.r_conv(ctx)
     purity.r_state_closure(ctx, SW + 'repair_dna')
     repair.r_ret(ctx)
     live.r_live(ctx, [SW + 'repair_dna'], floor=1)
@@ -176,6 +181,7 @@ def c10(ctx):
     exc.r_exc(ctx, SW + 'repair_dna', set(), floor=0)
     exc.r_typed_dispatch(ctx, ctx.closure(SW + 'repair_dna'), floor=1)
     exc.r_typed_index(ctx, SW + 'set_vt')
+    exc.r_typed_mix(ctx, SW + 'set_vt')     # no fixed-width / arbitrary-precision mix that overflows for long checks
 
 
 def c07(ctx):
